@@ -950,7 +950,7 @@ func groupObligations(results []*FuncResult) []*Group {
 			case o.Result.Answer == "sat":
 				g.Status = "failed"
 			default:
-				if o.Class == "LOCK" || o.Class == "FRAME" || o.Class == "TERM" {
+				if o.Class == "LOCK" || o.Class == "FRAME" || o.Class == "TERM" || strings.Contains(o.Name, "/invariant-at-unlock(") {
 					// structural obligations (goal false unless the path is
 					// infeasible): a path that is not proved infeasible fails
 					g.Status = "failed"
